@@ -65,7 +65,7 @@ class Addr:
         elif newip != self.ip:
             # the map is keyed by address as well; follow the change
             self._forget_address()
-            self.map.addr[ip] = self
+            self.map._file_under_address(ip, self)
             self.addr_key = ip
         self.ip = newip
 
@@ -151,8 +151,14 @@ class AddrMap(object):
         """
 
         params = shlex.split(update)
-        if params[0] in self.addr:
-            self.addr[params[0]].update(*params)
+        known = self.addr.get(params[0], None)
+        if known is not None and known.name != params[0]:
+            # that entry is another mapping, filed under its target
+            # (e.g. "a.example b.example NEVER" when b.example shows up)
+            known = None
+
+        if known is not None:
+            known.update(*params)
 
         elif params[1] == '<error>':
             # a failed lookup for a name we hold no mapping for: there
@@ -163,9 +169,18 @@ class AddrMap(object):
             a = Addr(self)
             # add both name and IP address
             self.addr[params[0]] = a
-            self.addr[params[1]] = a
+            self._file_under_address(params[1], a)
             a.update(*params)
             self.notify("addrmap_added", *[a], **{})
+
+    def _file_under_address(self, address, a):
+        """
+        make the mapping findable by its target as well -- unless
+        that string is itself a mapped name, which keeps its own entry
+        """
+        holder = self.addr.get(address, None)
+        if holder is None or holder.name != address:
+            self.addr[address] = a
 
     def find(self, name_or_ip):
         "FIXME should make this class a dict-like (or subclass?)"
